@@ -7,7 +7,7 @@ import ast
 from ..cfg import build_cfg, calls_in, node_calls
 from ..core import Ctx, property_info, rule, share
 from ..model import AnalysisError, FuncInfo, anon_text, walk_no_nested
-from ..q import Dispatch, L, call_name_of, control_deps, entry_conditions, expand, leaves_at, raw_forms, expand_at, flow_conditions, flows, forms, return_values, str_template, template_text, tests_like, A, MUTATORS, asrc, enum_members, is_self_attr, kwarg, root_name, stores, unparse
+from ..q import Dispatch, L, call_name_of, control_deps, entry_conditions, expand, leaves_at, node_containing, raw_forms, expand_at, flow_conditions, flows, forms, return_values, str_template, template_text, tests_like, A, MUTATORS, asrc, enum_members, is_self_attr, kwarg, root_name, stores, unparse
 
 DM = "xsdata.codegen.mappers.dtd"
 DP = "xsdata.codegen.parsers.dtd"
@@ -422,10 +422,17 @@ def config_vocabulary(ctx: Ctx) -> None:
     mp = ctx.repo.func("xsdata.codegen.mappers.definitions:DefinitionsMapper.map_binding_message_parts")
     g = build_cfg(mp.node)
     memb = [t for t in ast.walk(mp.node) if isinstance(t, ast.Compare) and isinstance(t.ops[0], (ast.In, ast.NotIn)) and unparse(t.left).endswith(".name") and isinstance(t.comparators[0], ast.Name)]
-    coll = {t.comparators[0].id for t in memb}
-    parts_assign = [v for st, tgt, v in stores(mp.node) if isinstance(tgt, ast.Name) and tgt.id in coll and v is not None]
-    listy = bool(parts_assign) and all(isinstance(v, (ast.List, ast.ListComp, ast.Tuple, ast.Set)) or (isinstance(v, ast.Call) and (unparse(v.func) in ("list", "set", "tuple") or (isinstance(v.func, ast.Attribute) and v.func.attr == "split")))
-                                       for v in parts_assign)
+
+    def _listy(v: ast.expr) -> bool:
+        return isinstance(v, (ast.List, ast.ListComp, ast.Tuple, ast.Set, ast.SetComp)) or (isinstance(v, ast.Call) and (unparse(v.func) in ("list", "set", "tuple", "frozenset") or (isinstance(v.func, ast.Attribute) and v.func.attr == "split")))
+
+    gmp = build_cfg(mp.node)
+    listy = bool(memb)
+    for t in memb:
+        n_ = node_containing(gmp, t)
+        leaves = [leaf for leaf, _ in flows(mp, n_, t.comparators[0])] if n_ is not None else []
+        # every value the collection can hold at the test is a list / tuple / set of names (built by a display, list(), or str.split())
+        listy = listy and bool(leaves) and all(_listy(x) for x in leaves)
     ctx.ob("message parts are selected by membership in a collection of names (never a substring test on the raw attribute)", bool(memb) and listy, at=mp, node=memb[0] if memb else None, construct="part selection",
            msg="`part.name in <str>` is a substring test: part 'user' is selected by parts='userToken'")
 
@@ -718,8 +725,11 @@ def per_operation_configuration(ctx: Ctx) -> None:
                         ctx.ob(f"{fi.qual.split(':')[1]}: {name}.{f.attr}() inside the loop does not leak into the next item's configuration", not passed, at=fi, node=c,
                                msg=f"`{name}` lives across iterations and is also passed to {unparse(passed[0].func) if passed else ''}: values set for one operation / message carry over to the following ones (copy it per item)")
     mb = ctx.repo.func("xsdata.codegen.mappers.definitions:DefinitionsMapper.map_binding")
-    upd = [c for c in calls_in(mb.node) if isinstance(c.func, ast.Attribute) and c.func.attr == "update" and isinstance(c.func.value, ast.Name)]
-    copies = {tgt.id for st, tgt, v in stores(mb.node) if isinstance(tgt, ast.Name) and isinstance(v, ast.Call) and ((isinstance(v.func, ast.Attribute) and v.func.attr == "copy") or unparse(v.func) == "dict")}
-    ctx.ob("map_binding builds each operation's configuration from a copy of the binding configuration", bool(upd) and all(c.func.value.id in copies for c in upd), at=mb, construct="operation config copy",
+    upd = [c for c in calls_in(mb.node) if isinstance(c.func, ast.Attribute) and c.func.attr in ("update", "setdefault") and isinstance(c.func.value, ast.Name)]
+    copies = {tgt.id for st, tgt, v in stores(mb.node) if isinstance(tgt, ast.Name) and (isinstance(v, ast.Dict) or (isinstance(v, ast.Call) and ((isinstance(v.func, ast.Attribute) and v.func.attr == "copy") or unparse(v.func) == "dict")))}
+    # the mapping handed to each operation is a per-iteration copy, and nothing is merged into the shared binding configuration itself
+    per_op = [c for c in calls_in(mb.node) if call_name_of(c) == "map_binding_operation"]
+    passes_shared = any(isinstance(a_, ast.Name) and a_.id == "config" for c in per_op for a_ in [*c.args, *[k.value for k in c.keywords]])
+    ctx.ob("map_binding builds each operation's configuration from a copy of the binding configuration", bool(per_op) and not passes_shared and all(c.func.value.id in copies for c in upd) and bool(copies), at=mb, construct="operation config copy",
            msg="operation attributes are merged into the shared binding configuration")
     ctx.note("C17.R5 loop-carried updates", n)
